@@ -346,3 +346,92 @@ func VP_C09_Backwards() {
 		vp.Assert(bytes.Equal(stored.Hash(), g2.LastBlockID.Hash), "C09.client.stored-header-is-the-one-linked-by-hash-to-the-trusted-header")
 	}
 }
+
+// ---------------------------------------------------------------- C09-H4: forward skipping verification with a faulty primary
+
+// vpScripted answers the k-th request according to the harness' choice.
+type vpScripted struct {
+	genuine map[int64]*types.LightBlock
+	forged  map[int64]*types.LightBlock // well-formed blocks signed by a made-up validator set
+	future  map[int64]*types.LightBlock // headers with a time from the future
+	script  []int                       // per request: 0 genuine, 1 forged, 2 future-dated, 3 no response
+	n       int
+}
+
+func (p *vpScripted) ChainID() string { return vpChain }
+func (p *vpScripted) ReportEvidence(ctx context.Context, ev types.Evidence) error { return nil }
+func (p *vpScripted) LightBlock(ctx context.Context, height int64) (*types.LightBlock, error) {
+	k := p.n
+	p.n++
+	kind := 0
+	if k < len(p.script) {
+		kind = p.script[k]
+	}
+	src := p.genuine
+	switch kind {
+	case 1:
+		src = p.forged
+	case 2:
+		src = p.future
+	case 3:
+		return nil, provider.ErrNoResponse
+	}
+	if b, ok := src[height]; ok {
+		return b, nil
+	}
+	if b, ok := p.genuine[height]; ok {
+		return b, nil
+	}
+	return nil, provider.ErrLightBlockNotFound
+}
+
+// The client trusts height 1; the validator set is replaced completely between heights 2 and 3, so
+// height 3 needs the pivot 2. The primary answers each of its first requests genuinely, with a forged
+// block, with a future-dated header or not at all; two honest witnesses serve the genuine chain.
+// Whatever happens, only genuine blocks end up trusted.
+func VP_C09_ForwardFaultyPrimary() {
+	vp.Opt("sched", 0)
+	base := int64(1700000000)
+	nv := func(idx []int) *types.ValidatorSet { return types.NewValidatorSet(vpValSet(idx, 10).Validators) }
+	v1, v2, fake := nv([]int{0, 1, 2}), nv([]int{3, 4, 5}), nv([]int{6, 7, 8})
+	all := []bool{true, true, true}
+	mk := func(h int64, t int64, vals, next *types.ValidatorSet, keys []int, prev *types.Header, tag string) *types.LightBlock {
+		hd := vpHeader(vpChain, h, time.Unix(t, 0).UTC(), vals, next)
+		hd.DataHash = tmhash.Sum([]byte(tag))
+		if prev != nil {
+			hd.LastBlockID = types.BlockID{Hash: prev.Hash(), PartSetHeader: types.PartSetHeader{Total: 1, Hash: tmhash.Sum([]byte("parts"))}}
+		}
+		return &types.LightBlock{SignedHeader: &types.SignedHeader{Header: hd, Commit: vpCommit(vpChain, hd, vals, keys, all)}, ValidatorSet: vals}
+	}
+	g1 := mk(1, base+10, v1, v1, []int{0, 1, 2}, nil, "g1")
+	g2 := mk(2, base+20, v1, v2, []int{0, 1, 2}, g1.Header, "g2")
+	g3 := mk(3, base+30, v2, v2, []int{3, 4, 5}, g2.Header, "g3")
+	genuine := map[int64]*types.LightBlock{1: g1, 2: g2, 3: g3}
+	forged := map[int64]*types.LightBlock{2: mk(2, base+20, fake, fake, []int{6, 7, 8}, g1.Header, "f2"), 3: mk(3, base+30, fake, fake, []int{6, 7, 8}, g2.Header, "f3")}
+	future := map[int64]*types.LightBlock{2: mk(2, base+100000, fake, fake, []int{6, 7, 8}, g1.Header, "late2"), 3: mk(3, base+100000, fake, fake, []int{6, 7, 8}, g2.Header, "late3")}
+	prim := &vpScripted{genuine: genuine, forged: forged, future: future}
+	for k := 0; k < 3; k++ {
+		prim.script = append(prim.script, vp.Choice("primary-answer", 4))
+	}
+	store := dbs.New(dbm.NewMemDB(), vpChain)
+	if err := store.SaveLightBlock(g1); err != nil {
+		panic(err)
+	}
+	w1, w2 := &vpScripted{genuine: genuine}, &vpScripted{genuine: genuine}
+	c := &Client{chainID: vpChain, trustingPeriod: time.Hour, verificationMode: skipping, trustLevel: DefaultTrustLevel, maxClockDrift: 10 * time.Second,
+		maxBlockLag: 10 * time.Second, maxRetryAttempts: 1, pruningSize: 1000, primary: prim, witnesses: []provider.Provider{w1, w2}, trustedStore: store, latestTrustedBlock: g1,
+		logger: log.NewNopLogger(), confirmationFn: func(string) bool { return true }, quit: make(chan struct{})}
+	got, err := c.VerifyLightBlockAtHeight(context.Background(), 3, time.Unix(base+60, 0).UTC())
+	if err == nil {
+		vp.Reach("verified")
+		vp.Assert(bytes.Equal(got.Hash(), g3.Hash()), "C09.forward.block-returned-as-verified-is-the-genuine-one")
+	} else {
+		vp.Reach("refused?")
+	}
+	for h := int64(2); h <= 3; h++ {
+		if b, serr := store.LightBlock(h); serr == nil {
+			vp.Assert(bytes.Equal(b.Hash(), genuine[h].Hash()), "C09.forward.only-verified-blocks-enter-the-trusted-store")
+		}
+	}
+	vp.Settle()
+}
